@@ -23,6 +23,9 @@ REQS = {
     'P9': dict(kind='put', v=2, form='vara', start=[4, 0], count=[1, 2]),
     'PA': dict(kind='put', v=2, form='vara', start=[0, 0], count=[3, 2]),
     'PB': dict(kind='put', v=3, form='vara', start=[0], count=[2]),
+    'PE': dict(kind='put', v=1, form='vara', start=[0], count=[2], nb='b'),                      # buffered writes of several sizes (attached-buffer slots)
+    'PF': dict(kind='put', v=0, form='vara', start=[0, 1], count=[2, 1], nb='b'),
+    'PG': dict(kind='put', v=3, form='vara', start=[1], count=[1], nb='b', mem='int'),
     'PC': dict(kind='put', v=2, form='varn', boxes=[([0, 0], [2, 1]), ([2, 1], [1, 1])]),      # varn on the first record variable, first box starts at record 0 and spans two records (sorted in front of requests on later variables)
     'PD': dict(kind='put', v=2, form='varn', boxes=[([0, 1], [0, 1]), ([3, 1], [1, 1]), ([3, 0], [1, 1])]),   # varn with a zero-length box
     'G1': dict(kind='get', v=0, form='vara', start=[0, 0], count=[2, 2]),
@@ -271,6 +274,25 @@ def gen_A(kmax, names=None):
     return out
 
 
+def gen_E(names):
+    """requests posted AFTER a partial wait or cancel: post X, post Y, complete one of them, post Z, complete the rest in either order
+    (space given back by the first completion may be reused by Z while the other request is still pending)"""
+    out = []
+    probe = NB('probe')
+    for sel in ordered_selections(probe.model, 3, names):
+        if len(sel) != 3: continue
+        for first in (0, 1):
+            for how1 in ('wait', 'cancel'):
+                for order in ((2, 1 - first), (1 - first, 2)):
+                    s = NB('E-%s-%d%s-%s' % ('.'.join(sel), first, how1[0], ''.join(map(str, order))))
+                    slots = [s.post(sel[0]), s.post(sel[1])]
+                    s.wait([slots[first]], how='cancel' if how1 == 'cancel' else 'wait_all')
+                    slots.append(s.post(sel[2]))
+                    for k in order: s.wait([slots[k]])
+                    out.append(s.final())
+    return out
+
+
 def gen_B(triples, hows=('wait_all', 'wait')):
     """all ordered set-partitions x all permutations inside each wait"""
     out = []
@@ -391,6 +413,7 @@ def main(tier=None):
         scripts += gen_D(REPR_TRIPLES, 3)
         scripts += gen_B(quads)
         scripts += gen_C(quads)
+        scripts += gen_E(['P7', 'PE', 'PF', 'PG', 'P1', 'P3', 'P6', 'PA', 'G5', 'G1'])
     else:
         scripts += gen_A(2)
         scripts += gen_A(3, names=[n for n in CORE8 if n in REQS])
@@ -398,6 +421,7 @@ def main(tier=None):
         scripts += gen_C(REPR_TRIPLES)
         scripts += gen_D(REPR_TRIPLES, 2)
         scripts += gen_B(quads[:2], hows=('wait_all',))
+        scripts += gen_E(['P7', 'PE', 'PF', 'PG', 'P1', 'G5'])
     results = runner.run_cases(b['vx'], [s.case for s in scripts], batch=40)
     states = set(); trans = set()
     for s, r in zip(scripts, results):
@@ -422,7 +446,7 @@ def main(tier=None):
     ck.cov.update(states=len(states), transitions=len(trans), traces_validated_against_impl=len(scripts),
                   distinct_nontrivial=len(set(tuple(s.trace) for s in scripts)),
                   rule='histories = ordered selections of <=3 compatible requests from the full request alphabet (quick: <=2, plus <=3 over an 8-letter core; thorough: plus <=4 over a 6-letter core) x {all ordered set-partitions into waits x all id permutations, '
-                       'NULL padding at every position, by-kind completion, cancel of every subset, posting in define mode, unknown id in a partial wait, every assignment of requests to 2-3 ranks}; '
+                       'NULL padding at every position, by-kind completion, cancel of every subset, posting in define mode, unknown id in a partial wait, requests posted after a partial wait or cancel (incl. several buffered writes), every assignment of requests to 2-3 ranks}; '
                        'each history is replayed on a fresh file and compared step by step with the blocking reference model; state = (pending set, completed set)')
     ck.sample(scripts[0].case.text()[:2000]); ck.sample(scripts[-1].case.text()[:2000])
     ck.assumptions += ['<= 4 pending requests, np <= 3', 'a history never reads an element that a pending request of the same history writes (order between them is undocumented)']
